@@ -14,14 +14,21 @@
   corresponding corner ellipses are then concentric and the corner test is monotone in the semi-axes,
   `Ellipse.hit_nested`).
 
-  What remains: shapes for which `confine` SCALES the radii of the stroke area or of the fill area
-  (radii that do not fit). The two areas are then scaled by different factors with truncating
-  divisions and corresponding corner ellipses are no longer concentric. The full statement
-  `FillInStrokeAll` below was evaluated on the model for 88 200 equal-radius and 540 225 unequal-radius
-  instances (sizes up to 9, radii up to 7 incl. non-fitting ones, widths up to 5, all alignments): no
-  counter-example.
+  [N] The full statement `FillInStrokeAll` (no hypothesis on the radii) is FALSE of the model and of
+  the unchanged code: when `confine` SCALES the radii of the fill area (or of the stroke area) the two
+  areas are scaled by different factors and corresponding corner ellipses are no longer concentric.
+  Witness (`not_fill_in_stroke_all`, kernel-decided): the 3 x 20 rounded rectangle at the origin with
+  top-left radius (3, 20) and no other rounded corner (the radii FIT the shape), stroke width 1,
+  `Inside`: `fill_area()` = offset(-1) has rectangle 1 x 18 and radius (2, 19), which `confine` scales to
+  (1, 9); the point (1, 2) is in that fill area but not in the stroke area (= the shape). Replayed on
+  the real code: `rrect.areas 0 0 3 20 3 20 0 0 0 0 0 0 1 0` -> oracle class
+  `C06:rrect-fill-area-not-inside-stroke-area`, and `rrect.styled 0 0 3 20 3 20 0 0 0 0 0 0 7 9 1 0 -8 -8 64 64`
+  -> `C06:rrect-styled-map-ne-areas` at (1, 2) (corpus/C06.ops). The `_partial` theorems state the
+  exact guard (`Fits` of both areas) under which the claim does hold. A grid / random search of the
+  model (88 200 equal-radius, 540 225 unequal-radius, 400 000 random instances with sizes <= 16 and
+  radii <= 30) found no violation; the witness family needs a tall thin shape with an elongated corner.
 
-  -- [V] FillInStroke when `confine` scales the radii of `stroke_area()` or of a non-collapsed `fill_area()` (radii that do not fit their rectangle): carried by correspondence + oracle only (model grid search: no counter-example)
+  -- [V] FillInStroke when `confine` scales the radii of `stroke_area()` or of a non-collapsed `fill_area()` (radii that do not fit their rectangle): FALSE in general (`not_fill_in_stroke_all`, witness replayed on the real code, corpus/C06.ops); where it does hold there it is carried by correspondence + oracle only
 -/
 import EG.Lemmas.GlueRRectNested
 import EG.Props.C06.RoundedRect
@@ -31,6 +38,29 @@ open EG EG.RoundedRect EG.Glue
 /-- The full claim (no hypothesis on the radii). -/
 def FillInStrokeAll : Prop :=
   ∀ (st : Style) (r : RoundedRect), (r.strokeArea st).InRange → (r.fillArea st).InRange → FillInStroke st r
+
+/-- **[N] The full claim is false**: the 3 x 20 rounded rectangle with the single corner radius (3, 20),
+stroke width 1, `Inside` alignment — both areas are in range, the shape's radii fit, the fill area's
+radii (2, 19) do not fit its 1 x 18 rectangle and are scaled to (1, 9) by `confine`; the point
+(1, 2) lies in `fill_area()` but not in `stroke_area()`. -/
+theorem not_fill_in_stroke_all : ¬ FillInStrokeAll := by
+  intro h
+  have h1 := h ⟨some 7, some 9, 1, .inside⟩ ⟨⟨⟨0, 0⟩, ⟨3, 20⟩⟩, ⟨⟨3, 20⟩, ⟨0, 0⟩, ⟨0, 0⟩, ⟨0, 0⟩⟩⟩
+    (by decide) (by decide) ⟨1, 2⟩ (by decide +kernel)
+  revert h1
+  decide +kernel
+
+/-- The witness in numbers: the shape's radii fit, the stroke area is the shape, the fill area's
+radii do not fit and are scaled by `confine`. -/
+theorem not_fill_in_stroke_witness :
+    let st : Style := ⟨some 7, some 9, 1, .inside⟩
+    let r : RoundedRect := ⟨⟨⟨0, 0⟩, ⟨3, 20⟩⟩, ⟨⟨3, 20⟩, ⟨0, 0⟩, ⟨0, 0⟩, ⟨0, 0⟩⟩⟩
+    r.corners.Fits r.rect.size ∧ r.strokeArea st = r ∧
+    r.fillArea st = ⟨⟨⟨1, 1⟩, ⟨1, 18⟩⟩, ⟨⟨2, 19⟩, ⟨0, 0⟩, ⟨0, 0⟩, ⟨0, 0⟩⟩⟩ ∧
+    ¬ (r.fillArea st).corners.Fits (r.fillArea st).rect.size ∧
+    (r.fillArea st).corners.confine (r.fillArea st).rect.size = ⟨⟨1, 9⟩, ⟨0, 0⟩, ⟨0, 0⟩, ⟨0, 0⟩⟩ ∧
+    (r.fillArea st).contains ⟨1, 2⟩ = true ∧ (r.strokeArea st).contains ⟨1, 2⟩ = false ∧
+    r.contains ⟨1, 2⟩ = false := by decide +kernel
 
 /-- With fitting radii `contains` is: inside the rectangle and, in each of the four corner boxes,
 inside that corner's ellipse — the radii enter directly (no `confine`, no left/right corner choice). -/
